@@ -92,7 +92,12 @@ func H10_grow() {
 		nDocs := 1 + vChoice(prefix+"docs", 3)
 		nTerms := 1 + vChoice(prefix+"terms", 3)
 		nLocs := vChoice(prefix+"locs", vParam("maxLocs", 4))
-		return vGenBatchFixed(gCfg{prefix: prefix, idBase: prefix, nDocs: nDocs, wide: -1, noFx: true,
+		// (the first batch's stored values carry array positions, the second one's do not)
+		ap := 0
+		if prefix == "a" {
+			ap = 1
+		}
+		return vGenBatchFixed(gCfg{prefix: prefix, idBase: prefix, nDocs: nDocs, wide: -1, noFx: true, maxAP: ap, fixAP: true,
 			fields: []gField{
 				{name: "f", terms: alphabet[:nTerms], tv: nLocs > 0, maxLocs: nLocs, fixLocs: true, dv: true, store: true, fixFreq: true},
 			}})
